@@ -57,6 +57,9 @@ func c05Sess(idx int, alloc, choose bool, bad string) model.Op {
 	case "wrongnode":
 		op.NodeID = "172.31.77.77"
 		op.Note = "bad"
+	case "firstpdr": // the very first PDR draws a UE address and is refused afterwards (unknown application)
+		op.PDRs = []model.PDR{{ID: 2, Prec: 10, Src: "core", HasUE: true, UEAlloc: true, AppID: "no-such-app", FAR: 2, QERs: []uint32{1}}, up}
+		op.Note = "bad"
 	}
 	return op
 }
@@ -75,7 +78,14 @@ func genC05(t *rapid.T) c05Case {
 	liveSet := map[int]bool{}
 	for i := 0; i < n; i++ {
 		live := len(liveSet)
-		switch rapid.SampledFrom([]string{"est", "est", "estbad", "estbad", "modrej", "mod", "del"}).Draw(t, "k") {
+		switch rapid.SampledFrom([]string{"est", "est", "estbad", "estbad", "modrej", "mod", "del", "strip"}).Draw(t, "k") {
+		case "strip":
+			// a modification that removes every PDR: the session lives on without PDRs
+			if sess == 0 {
+				continue
+			}
+			si := rapid.IntRange(0, sess-1).Draw(t, "si")
+			c.Ops = append(c.Ops, model.Op{Kind: "mod", Peer: 0, Seq: uint32(300 + i), Sess: si, Note: "any", RemPDRs: []uint16{1, 2}})
 		case "est":
 			if live >= capN {
 				continue
@@ -88,7 +98,7 @@ func genC05(t *rapid.T) c05Case {
 				continue
 			}
 			c.Ops = append(c.Ops, c05Sess(sess, rapid.Bool().Draw(t, "alloc"), rapid.Bool().Draw(t, "choose"),
-				rapid.SampledFrom([]string{"badpdr", "badfar", "wrongnode"}).Draw(t, "bad")))
+				rapid.SampledFrom([]string{"badpdr", "badfar", "wrongnode", "firstpdr", "firstpdr"}).Draw(t, "bad")))
 			sess++
 		case "modrej":
 			if sess == 0 || excluded("modRejectedHalfway") {
